@@ -9,6 +9,7 @@ from pyvc.values import LinComb, Poly, UFunc, Atom, fresh_name
 
 FILE = "desolver/integrators/integrator_types.py"
 CLS = "generate_richardson_integrator.RichardsonExtrapolatedIntegrator"
+FT = "desolver/integrators/integrator_types.py"
 
 
 def _grid_hooks(ex):
@@ -163,4 +164,34 @@ def verify_common_interval(src, reg, richardson_iter, prop="C01"):
                 goals.append(req == covered0)
         ex.prove(s, ctx, z3.And(*goals), "post", "all-passes-cover-the-interval-the-first-pass-covered#%d" % k)
     reg.ground("%s/%s/paths-explored" % (prop, ctx.tag), "lemma", "adaptive_richardson", n >= 1, detail="%d paths" % n)
+    return fi
+
+
+def check_factory(src, reg, prop, levels=(2, 3, 4, 5)):
+    """generate_richardson_integrator(basis, k): on every returning path the result is the class this call defined, closed over the basis
+    and the number of levels it was asked for -- not a class an earlier call (with other arguments) left somewhere.  The real factory is
+    executed; the class body is not (its methods are under contract on their own, with the closure bound to the same k)."""
+    from pyvc.values import ModuleRef, Ref
+    fi = src.func(FT, "generate_richardson_integrator")
+    for k in levels:
+        ex = Executor(src, reg, prop=prop)
+        ex.local_classes = True
+        st = State()
+        basis = ModuleRef("desolver.integrators.<some basis integrator class>")
+        ctx = Ctx(fi, None, None, tag="generate_richardson_integrator[levels=%d]" % k)
+        tag = "%s/%s/" % (prop, ctx.tag)
+        try:
+            paths = ex.call_function(fi, [basis, k], {}, st, ctx)
+        except Unsupported as e:
+            reg.undecided(tag + "executes", "unsupported", "generate_richardson_integrator", str(e))
+            continue
+        rets = [(s, v) for s, v in paths if not isinstance(v, Raised)]
+        bad = []
+        for j, (s, v) in enumerate(rets):
+            f = s.obj(v).fields if isinstance(v, Ref) and s.obj(v).cls == "<local class>" else None
+            ok = f is not None and f["__class_statement__"] == CLS and f["__closure__"].get("richardson_iter") == k and f["__closure__"].get("basis_integrator") is basis
+            if not ok:
+                bad.append("path %d returns %r" % (j, v if f is None else {a: f["__closure__"].get(a) for a in ("richardson_iter", "basis_integrator")}))
+        reg.ground(tag + "returns-the-class-defined-in-this-call-for-the-requested-levels", "post", "generate_richardson_integrator", bool(rets) and not bad,
+                   backend="symbolic-exec", detail="%d returning paths; %s" % (len(rets), "; ".join(bad) or "each returns the class statement closed over richardson_iter = %d and the given basis" % k))
     return fi
